@@ -232,7 +232,7 @@ def run(chk):
                        "source": src, "source_path": GEN_COPY if src == "generated" else committed_path(),
                        "how_generated": "python -m generator --plugin rust --output-dir <scratch> (cwd = repository)" if src == "generated" else "committed file",
                        "offending_sites": total, "entries": entries,
-                       "broken_obligations": [f[:2] for f in failed],
+                       "broken_obligations": [[a, b2, c[-600:]] for a, b2, c in failed],
                        "how_to_replay": "./check C07 --replay <this file>"}, tag=src)
         reported = True
     if not reported:
